@@ -129,6 +129,12 @@ func TestC09(t *testing.T) {
 		case 3:
 			c09PriorityTag(c, rt, g)
 		case 4:
+			if rapid.Bool().Draw(rt, "dhcp_short_read_first") {
+				// history: a caller reads only the fixed part of one message into a 240-byte slice, then encodes another
+				other := g.DHCP()
+				other.Val.Read(make([]byte, 240))
+				c.Label("dhcp_after_short_read")
+			}
 			m := g.DHCP()
 			c.Label("kind=DHCP")
 			c09DHCP(c, rt, m)
